@@ -206,3 +206,40 @@ async fn transfer_udp(socket: UdpSocket, current: ServerConfig<SslConfig>) {
     }
     .unwrap_or_else(|e| error!("[udp] transfer failed; error={}", e));
 }
+
+/// Verification facade (cargo feature `verif`, off by default): re-exports of the
+/// already-`pub` codec items of the private modules, nothing else.
+#[cfg(feature = "verif")]
+#[allow(unused_imports)]
+pub mod verif {
+    pub use super::config::ClientConfig;
+    pub use super::config::SslConfig;
+    pub use super::handshake::Proxy;
+    pub use super::handshake::get_request_addr;
+    pub use super::handshake::verif_recognize_http as recognize_http;
+    pub mod shadowsocks {
+        pub mod tcp {
+            pub use crate::client::shadowsocks::tcp::*;
+        }
+        pub mod udp {
+            pub use crate::client::shadowsocks::udp::*;
+        }
+    }
+    pub mod vmess {
+        pub use crate::client::vmess::ClientAEADCodec;
+        pub mod tcp {
+            pub use crate::client::vmess::tcp::*;
+        }
+        pub mod udp {
+            pub use crate::client::vmess::udp::*;
+        }
+    }
+    pub mod trojan {
+        pub mod tcp {
+            pub use crate::client::trojan::tcp::*;
+        }
+        pub mod udp {
+            pub use crate::client::trojan::udp::*;
+        }
+    }
+}
